@@ -2,6 +2,7 @@ import PW.Proofs.ApplyMatrixSem
 import PW.Proofs.ApplyVector
 import PW.Proofs.LevelIndep
 import PW.Props.Tables
+import PW.Proofs.Adequacy
 import PW.Proofs.Basic
 import PW.Spec
 /-!
@@ -49,6 +50,20 @@ theorem vector_and_matrix_level_agree (dims : List Nat) (T : List Nat) (hlt : ‚à
   unfold Spec.outer
   rw [List.take_left' hr, List.drop_left' hr]
 
+/-- **Adequacy of the specification** (two factors: the addressed one and "everything else"):
+`Spec.applyOn` is Mathlib's `(O ‚äó‚Çñ 1) * œÅ * (O ‚äó‚Çñ 1)·¥¥` -/
+theorem applyOn_is_kronecker_conjugation {a b : Nat} (O œÅ : Tensor ‚ÑÇ) :
+    PW.Adequacy.toMatrix (a := a) (b := b) (Spec.applyOn [a, b] [0] O œÅ)
+      = PW.Channels.emb (b := Fin b) (PW.Adequacy.opMatrix (a := a) O) * PW.Adequacy.toMatrix œÅ *
+          (PW.Channels.emb (b := Fin b) (PW.Adequacy.opMatrix (a := a) O)).conjTranspose :=
+  PW.Adequacy.toMatrix_applyOn O œÅ
+
+/-- a unitary operation preserves the trace of the joint state -/
+theorem unitary_operation_preserves_trace {a b : Nat} (O œÅ : Tensor ‚ÑÇ)
+    (hU : (PW.Adequacy.opMatrix (a := a) O).conjTranspose * PW.Adequacy.opMatrix (a := a) O = 1) :
+    Spec.trace [a, b] (Spec.applyOn [a, b] [0] O œÅ) = Spec.trace [a, b] œÅ :=
+  PW.Adequacy.spec_unitary_preserves_trace O œÅ hU
+
 /-- which operation types renormalise is the source's table (regenerated on every run) -/
 theorem renormalise_table : PW.Generated.opTable = PW.TablesSpec.expectedOps :=
   PW.Props.Tables.op_table_as_expected
@@ -62,5 +77,7 @@ end PW.Props.C01
 #print axioms PW.Props.C01.apply_operator_matrix_is_applyOn
 #print axioms PW.Props.C01.apply_operator_vector_is_applyVec
 #print axioms PW.Props.C01.vector_and_matrix_level_agree
+#print axioms PW.Props.C01.applyOn_is_kronecker_conjugation
+#print axioms PW.Props.C01.unitary_operation_preserves_trace
 #print axioms PW.Props.C01.renormalise_table
 #print axioms PW.Props.C01.hardcoded_strings
